@@ -404,6 +404,13 @@ def check_deprecated(text, info):
     if pn != info['params'] or (info['tags'] is not None and tn != info['tags']):
         problems.append(('tree', 'parameters %r / tags %r, written %r / %r' % (pn, tn, info['params'], info['tags']),
                          {'text': text, 'observed': raw}))
+    if info.get('stability'):
+        word, canonical, desc = info['stability']
+        t = raw['tags'][0] if raw['tags'] else [None, None, None, None]
+        val = t[2] or ''
+        if (val != word if canonical else val.lower() != word.lower()) or t[3] != desc:
+            problems.append(('tree', 'Stability tag: value %r description %r, expected %r (%s) / %r' % (
+                t[2], t[3], word, 'exactly' if canonical else 'in any letter case', desc), {'text': text}))
     for indent in (True, False):
         try:
             w = B.write(block, indent)
@@ -561,7 +568,7 @@ def run(ctx):
         for r in pmap(_work_T, rotate([T[i::16] for i in range(16) if T[i::16]], ctx.seed)):
             ctx.merge(r)
     if not only or 'D' in only:
-        D = list(enumerate(B.deprecated_tag_blocks() + B.odd_tag_blocks()))
+        D = list(enumerate(B.deprecated_tag_blocks() + B.odd_tag_blocks() + B.stability_blocks()))
         ctx.cov['bounds']['family_D'] = {'texts': len(D)}
         for r in pmap(_work_D, rotate([D[i::16] for i in range(16) if D[i::16]], ctx.seed)):
             ctx.merge(r)
